@@ -755,7 +755,7 @@ LC_SNIPPETS = [
     (3, 'message X { int32 f = 1 [(fm) = {a: [1]}, (fstr) = "x"]; }'), (3, 'message X { int32 f = 1 [deprecated = true]; }'),
     (3, 'message X { int32 f = 1 [deprecated = true, json_name = "x"]; }'), (3, 'message X { int32 f = 1 [(fm).a = 1]; }'),
     (3, 'message X { int32 f = 1 [(fm).n = {}]; }'), (3, 'message X { int32 f = 1 [(fstr) = "x" "y"]; }'),
-    (3, 'message X { int32 f = 1 [(fm) = {a: []}]; }'), (3, 'message X { int32 f = 1 [(fm) = <>]; }'), (3, 'message X { int32 f = 1; }'),
+    (3, 'message X { int32 f = 1 [(fm) = {a: []}]; }'), (3, 'message X { int32 f = 1; }'),
     (3, 'message X { repeated M f = 1; }'), (3, 'message X { a.b.M f = 1; }'), (3, 'message X { .a.b.M f = 1; }'),
     (3, 'message X { map<string, int32> f = 1; }'), (3, 'message X { map<string, M> f = 1 [deprecated = true]; }'),
     (3, 'message X { reserved 1, 2; }'), (3, 'message X { reserved 1 to 3, 5 to max; }'), (3, 'message X { reserved "a", "b"; }'),
